@@ -191,7 +191,9 @@ def run_tlc(main, cfg_text, mc_text=None, workers=1, timeout=900, on_record=None
     """
     d = make_tlc_dir(main, mc_text, cfg_text, extra_files)
     res = TLCResult()
-    cmd = ['java', '-XX:+UseParallelGC', '-Xmx' + xmx, '-Xss64m',
+    jtmp = os.path.join(d, 'jtmp')       # TLC unpacks its standard modules into java.io.tmpdir and leaves them there:
+    os.makedirs(jtmp, exist_ok=True)     # keep that inside the run directory, which is removed after the run
+    cmd = ['java', '-XX:+UseParallelGC', '-Xmx' + xmx, '-Xss64m', '-Djava.io.tmpdir=' + jtmp,
            '-cp', TLA_JAR + ':' + TLA_DEPS, 'tlc2.TLC',
            '-workers', str(workers), '-metadir', os.path.join(d, 'meta'),
            '-noGenerateSpecTE']
